@@ -29,6 +29,7 @@ type Case struct {
 	FEN    string   `json:"fen"`
 	Moves  []string `json:"moves"`
 	Direct bool     `json:"direct,omitempty"` // board assembled field by field instead of parsed
+	Every  int      `json:"every,omitempty"`  // compare only at every n-th position (long games) and at the end
 }
 
 var ms = move.NewStore()
@@ -110,7 +111,12 @@ func classify(rec *evid.Rec, p *refchess.Pos, legal []refchess.Move) {
 }
 
 // checkCase replays c on the engine and the reference, comparing at every position.
-func checkCase(c Case, rec *evid.Rec) error {
+func checkCase(c Case, rec *evid.Rec) (err error) {
+	defer func() {
+		if r := recover(); r != nil {
+			err = fmt.Errorf("panic while replaying %s %v: %v", c.FEN, c.Moves, r)
+		}
+	}()
 	p, err := refchess.ParseFEN(c.FEN)
 	if err != nil {
 		return fmt.Errorf("bad case fen: %v", err)
@@ -122,15 +128,27 @@ func checkCase(c Case, rec *evid.Rec) error {
 		return fmt.Errorf("engine rejects valid FEN %q: %v", c.FEN, err)
 	}
 	for i := 0; ; i++ {
+		if c.Every > 1 && i%c.Every != 0 && i < len(c.Moves) && i < len(c.Moves)-8 {
+			m, err := refchess.ParseMove(c.Moves[i])
+			if err != nil {
+				return err
+			}
+			b.MakeMove(eng.Enc(m))
+			p = p.Make(m)
+			continue
+		}
 		legal := p.Legal()
 		if rec != nil {
 			rec.Eval(1)
 			classify(rec, &p, legal)
+			if p.Half > 127 {
+				rec.Class("halfmove_clock>127")
+			}
 		}
 		if d := compare(b, &p, legal); d != "" {
 			return fmt.Errorf("after %v: %s", c.Moves[:i], d)
 		}
-		if i%3 == 0 { // the same position loaded afresh from text, raw and normalised en-passant field
+		if i%3 == 0 && p.Half <= 100 { // the same position loaded afresh from text, raw and normalised en-passant field
 			for _, q := range []refchess.Pos{p, p.NormEP()} {
 				fb, err := eng.FromRef(&q)
 				if err != nil {
@@ -159,8 +177,30 @@ func checkCase(c Case, rec *evid.Rec) error {
 func playoutProp(rec *evid.Rec) func(t *rapid.T) {
 	return func(t *rapid.T) {
 		root, label := gen.Root(t)
+		c := Case{}
+		// en-passant decision points reached by PLAYING the double push (not loaded from FEN)
+		if gen.Chance(t, 1, 8, "epParent") {
+			var pp refchess.Pos
+			var pm refchess.Move
+			ok, name := false, ""
+			if gen.Chance(t, 1, 2, "twoOnePinned") {
+				pp, pm, ok = gen.EPTwoOnePinned(t)
+				name = "ep_two_capturers_one_pinned"
+			} else {
+				pp, pm, name, ok = gen.EPMotif(t)
+			}
+			if ok {
+				if gen.Chance(t, 1, 2, "mirror") {
+					pp, pm = gen.MirrorColors(pp), gen.MirrorMove(pm)
+				}
+				c.FEN, c.Moves = pp.FEN(), []string{pm.String()}
+				root, label = pp.Make(pm), "parent_"+name
+			}
+		}
 		rec.Class("root_" + label)
-		c := Case{FEN: root.FEN()}
+		if c.FEN == "" {
+			c.FEN = root.FEN()
+		}
 		gen.Playout(t, root, 40, func(ply int, p *refchess.Pos, legal []refchess.Move, m refchess.Move) bool {
 			c.Moves = append(c.Moves, m.String())
 			return true
@@ -307,6 +347,24 @@ func TestC01(t *testing.T) {
 		rec.Assume("reference rules implementation verif/refchess (validated against published perft numbers at start of every run)")
 		rec.Assume("input domain: valid positions as defined in the property; clocks 0..100")
 		rec.Rapid(t, "playout", evid.Pick(40000, 600000), playoutProp(rec))
+		rec.Rapid(t, "long_game", evid.Pick(1500, 20000), func(t *rapid.T) {
+			// long, mostly reversible games: histories of 100..260 plies, halfmove clocks beyond 100 and 127
+			root, label := gen.Root(t)
+			if gen.Chance(t, 1, 2, "startpos") {
+				root, label = refchess.MustFEN(gen.StartFEN), "startpos"
+			}
+			root.Half = 0
+			ms, _ := gen.LongShuffle(t, root, 100, 260)
+			c := Case{FEN: root.FEN(), Every: 16}
+			for _, m := range ms {
+				c.Moves = append(c.Moves, m.String())
+			}
+			rec.Class("long_game_" + label)
+			if err := checkCase(c, rec); err != nil {
+				rec.Fail("long_game", err.Error(), c)
+				t.Fatalf("%v", err)
+			}
+		})
 		rec.Rapid(t, "perft", evid.Pick(8000, 100000), perftProp(rec))
 		table3(rec)
 		uciPerft(rec)
